@@ -7,7 +7,7 @@ Properties/C20.v by the coordinator."""
 from checks import c04
 
 THEOREMS = {"Properties.C20": ["C20_l1a_bound", "C20_capacity_zero_unbounded", "C20_hot_bound_after_insert",
-                               "C20_hot_bound_api", "C20_hot_bound_orphans_refuted", "C20_evicted_still_readable",
+                               "C20_hot_bound_api", "C20_hot_bound_orphans_refuted", "C20_evicted_still_readable", "C20_qcache_bound",
                                "C20_nonvacuous"]}
 PINS = {"Properties.C20": {
     "_preamble": c04.PRE,
